@@ -1,9 +1,244 @@
 import ALV.Common.Json
+import ALV.Model.C07
+import ALV.Spec.C07
 namespace ALV.Driver.C07
-open ALV ALV.J
+open ALV ALV.J ALV.C07
 
-/-- stub: the C07 slice is not built yet -/
-def handle (entry : String) (_j : Json) : Except String Json :=
-  throw s!"C07: unknown entry {entry}"
+/-- driver problem (bad request) or a Python exception predicted by the model -/
+inductive Err where
+  | drv (s : String)
+  | py (e : PyErr)
+
+abbrev M := Except Err
+
+def liftD {β} (x : Except String β) : M β :=
+  match x with
+  | .ok v => .ok v
+  | .error s => .error (.drv s)
+
+def liftP {β} (x : Except PyErr β) : M β :=
+  match x with
+  | .ok v => .ok v
+  | .error e => .error (.py e)
+
+abbrev P := MPoly Rat
+
+def pairJ (kv : Int × Rat) : Json := Json.arr [intToJson kv.1, ratToJson kv.2]
+def polyJ (p : P) : Json := arr pairJ p
+
+def getPair (j : Json) : Except String (Int × Rat) := do
+  match ← getArr j with
+  | [a, b] => pure (← getInt a, ← getRat b)
+  | _ => throw "expected [power, coeff]"
+
+def getPoint (j : Json) : Except String (Rat × Rat) := do
+  match ← getArr j with
+  | [a, b] => pure (← getRat a, ← getRat b)
+  | _ => throw "expected [x, y]"
+
+/-- model evaluation of an expression tree, operation by operation as the Python operators dispatch -/
+partial def evalM (j : Json) : M P := do
+  let l ← liftD (getArr j)
+  match l with
+  | [Json.str "dict", ps] => pure (mk (← liftD (getList getPair ps)))
+  | [Json.str "list", cs] => pure (ofList (← liftD (getList getRat cs)))
+  | [Json.str "const", c] => pure (ofScalar (← liftD (getRat c)))
+  | [Json.str "empty"] => pure empty
+  | [Json.str "x"] => pure X
+  | [Json.str "neg", a] => pure (neg (← evalM a))
+  | [Json.str "pos", a] => pure (pos (← evalM a))
+  | [Json.str "add", a, b] => pure (add (← evalM a) (← evalM b))
+  | [Json.str "sub", a, b] => pure (sub (← evalM a) (← evalM b))
+  | [Json.str "mul", a, b] => pure (mul (← evalM a) (← evalM b))
+  | [Json.str "adds", a, c] => pure (add (← evalM a) (ofScalar (← liftD (getRat c))))
+  | [Json.str "radds", c, a] => do
+      let p ← evalM a
+      pure (add (ofScalar (← liftD (getRat c))) p)
+  | [Json.str "subs", a, c] => pure (add (← evalM a) (ofScalar (-(← liftD (getRat c)))))
+  | [Json.str "rsubs", c, a] => do
+      let p ← evalM a
+      pure (sub (ofScalar (← liftD (getRat c))) p)
+  | [Json.str "muls", a, c] => pure (mul (← evalM a) (ofScalar (← liftD (getRat c))))
+  | [Json.str "rmuls", c, a] => do
+      let p ← evalM a
+      pure (mul (ofScalar (← liftD (getRat c))) p)
+  | [Json.str "divs", a, c] => do
+      let p ← evalM a
+      liftP (divScalar p (← liftD (getRat c)))
+  | [Json.str "div", a, b] => do
+      let p ← evalM a
+      let q ← evalM b
+      liftP (divPoly p q)
+  | [Json.str "pow", a, n] => pure (pow (← evalM a) (← liftD (getInt n)))
+  | [Json.str "comp", a, b] => do
+      let p ← evalM a
+      let q ← evalM b
+      pure (compose p q)
+  | [Json.str "diff", a, n] => pure (diff (← evalM a) (← liftD (getNat n)))
+  | [Json.str "integ", a] => do
+      let p ← evalM a
+      liftP (integrate p)
+  | [Json.str "setitem", a, k, c] => pure (setItem (← evalM a) (← liftD (getInt k)) (← liftD (getRat c)))
+  | _ => throw (.drv s!"C07: bad expression {j.compress}")
+
+/-- specification value of an expression tree (canonical form); `none` where the property
+    does not speak (an exception, a negative power of a non-monomial, …) -/
+partial def evalS (j : Json) : Except String (Option P) := do
+  let l ← getArr j
+  let un (a : Json) (f : P → Option P) : Except String (Option P) := do
+    pure ((← evalS a).bind f)
+  let bin (a b : Json) (f : P → P → Option P) : Except String (Option P) := do
+    let p ← evalS a
+    let q ← evalS b
+    pure (p.bind fun p => q.bind fun q => f p q)
+  match l with
+  | [Json.str "dict", ps] => pure (some (canon (ofPairs (← getList getPair ps))))
+  | [Json.str "list", cs] => pure (some (canon (enumFrom 0 (← getList getRat cs))))
+  | [Json.str "const", c] => pure (some (sConst (← getRat c)))
+  | [Json.str "empty"] => pure (some [])
+  | [Json.str "x"] => pure (some [(1, 1)])
+  | [Json.str "neg", a] => un a (fun p => some (sNeg p))
+  | [Json.str "pos", a] => un a some
+  | [Json.str "add", a, b] => bin a b (fun p q => some (sAdd p q))
+  | [Json.str "sub", a, b] => bin a b (fun p q => some (sSub p q))
+  | [Json.str "mul", a, b] => bin a b (fun p q => some (sMul p q))
+  | [Json.str "adds", a, c] => do let c ← getRat c; un a (fun p => some (sAdd p (sConst c)))
+  | [Json.str "radds", c, a] => do let c ← getRat c; un a (fun p => some (sAdd (sConst c) p))
+  | [Json.str "subs", a, c] => do let c ← getRat c; un a (fun p => some (sSub p (sConst c)))
+  | [Json.str "rsubs", c, a] => do let c ← getRat c; un a (fun p => some (sSub (sConst c) p))
+  | [Json.str "muls", a, c] => do let c ← getRat c; un a (fun p => some (sMul p (sConst c)))
+  | [Json.str "rmuls", c, a] => do let c ← getRat c; un a (fun p => some (sMul (sConst c) p))
+  | [Json.str "divs", a, c] => do
+      let c ← getRat c
+      un a (fun p => if c = 0 then none else some (sDivMono p 0 c))
+  | [Json.str "div", a, b] => bin a b (fun p q => match q with
+      | [(d, w)] => some (sDivMono p d w)
+      | _ => none)
+  | [Json.str "pow", a, n] => do let n ← getInt n; un a (fun p => sPowZ p n)
+  | [Json.str "comp", a, b] => bin a b sComp
+  | [Json.str "diff", a, n] => do let n ← getNat n; un a (fun p => some (sDiffN p n))
+  | [Json.str "integ", a] => un a sInteg
+  | [Json.str "setitem", a, k, c] => do
+      let k ← getInt k
+      let c ← getRat c
+      un a (fun p => some (canonOn (k :: keys p) (fun i => if i = k then c else coeff p i)))
+  | _ => throw s!"C07: bad expression {j.compress}"
+
+def errJ (e : PyErr) : Json := Json.mkObj [("err", Json.str e.name)]
+
+def exceptJ {β} (f : β → Json) : Except PyErr β → Json
+  | .ok v => f v
+  | .error e => errJ e
+
+/-- what is observed of a result polynomial -/
+def observe (p : P) (vs : List Rat) (ks : List Int) : Json :=
+  Json.mkObj [
+    ("items", polyJ p),
+    ("terms", polyJ (sortAsc p)),
+    ("len", natToJson p.length),
+    ("is_polynomial", Json.bool (isPolynomial p)),
+    ("order", exceptJ intToJson (order p)),
+    ("values", exceptJ rats (values p)),
+    ("getitem", rats (ks.map (getD p))),
+    ("call_auto", rats (vs.map fun v => call p v .auto)),
+    ("call_horner", rats (vs.map fun v => call p v .yes)),
+    ("call_direct", rats (vs.map fun v => call p v .no))]
+
+def observeS (s : P) (vs : List Rat) (ks : List Int) : Json :=
+  Json.mkObj [
+    ("terms", polyJ s),
+    ("len", natToJson s.length),
+    ("getitem", rats (ks.map (coeff s))),
+    -- Σ c·v^k; at v = 0 only for polynomials (no negative power)
+    ("eval", arr (fun v => if v = 0 ∧ !isPolynomial s then Json.null else ratToJson (sEval s v)) vs)]
+
+def mToJson (x : M Json) : Except String Json :=
+  match x with
+  | .ok j => .ok j
+  | .error (.py e) => .ok (errJ e)
+  | .error (.drv s) => .error s
+
+def boolJ (b : Bool) : Json := Json.bool b
+
+/-- the laws of the property, evaluated through the model; `null` = not applicable -/
+def laws (p q r : P) (n : Nat) (c v : Rat) : List (String × Json) :=
+  let nfold : P := (List.replicate n p).foldl mul (ofScalar 1)
+  let hs := [Horner.auto, Horner.yes, Horner.no]
+  let polyOK := v ≠ 0 ∨ (isPolynomial p && isPolynomial q)
+  [ ("add_comm", boolJ (eq (add p q) (add q p))),
+    ("add_assoc", boolJ (eq (add (add p q) r) (add p (add q r)))),
+    ("mul_comm", boolJ (eq (mul p q) (mul q p))),
+    ("mul_assoc", boolJ (eq (mul (mul p q) r) (mul p (mul q r)))),
+    ("distrib_left", boolJ (eq (mul p (add q r)) (add (mul p q) (mul p r)))),
+    ("distrib_right", boolJ (eq (mul (add p q) r) (add (mul p r) (mul q r)))),
+    ("sub_self_empty", boolJ ((sub p p).isEmpty)),
+    ("add_neg", boolJ (eq (sub p q) (add p (neg q)))),
+    ("add_zero", boolJ (eq (add p empty) p && eq (add empty p) p)),
+    ("mul_one", boolJ (eq (mul p (ofScalar 1)) p && eq (mul (ofScalar 1) p) p)),
+    ("pow_nfold", boolJ (eq (pow p n) nfold)),
+    ("pow_succ", boolJ (eq (pow p (n + 1)) (mul (pow p n) p))),
+    ("no_zero_stored", boolJ ([add p q, sub p q, mul p q, pow p n, neg p, diff p, compose p q].all
+        fun s => s.all fun kv => kv.2 ≠ 0)),
+    ("eval_add", if polyOK then boolJ (hs.all fun h => call (add p q) v h = call p v h + call q v h) else Json.null),
+    ("eval_mul", if polyOK then boolJ (hs.all fun h => call (mul p q) v h = call p v h * call q v h) else Json.null),
+    ("eval_scheme", boolJ (call p v .yes = call p v .no && call p v .auto = call p v .no)),
+    ("comp_eval", if isPolynomial p && (v ≠ 0 ∨ isPolynomial q) then
+        boolJ (call (compose p q) v .auto = call p (call q v .auto) .auto) else Json.null),
+    ("diff_add", boolJ (eq (diff (add p q)) (add (diff p) (diff q)))),
+    ("diff_scale", boolJ (eq (diff (mul (ofScalar c) p)) (mul (ofScalar c) (diff p)))),
+    ("diff_mul", boolJ (eq (diff (mul p q)) (add (mul (diff p) q) (mul p (diff q))))),
+    ("diff_integrate", match integrate p with
+        | .ok ip => boolJ (eq (diff ip) p)
+        | .error _ => Json.null),
+    ("eq_hash", boolJ ((!eq (add p q) (add q p) || hashKey (add p q) == hashKey (add q p)) &&
+                       (!eq (mul p q) (mul q p) || hashKey (mul p q) == hashKey (mul q p)))),
+    ("ne_not_eq", boolJ (ne p q == !eq p q && ne (add p q) (add q p) == !eq (add p q) (add q p))) ]
+
+def handle (entry : String) (j : Json) : Except String Json := do
+  match entry with
+  | "expr" =>
+    let e ← field j "expr"
+    let vs ← getList getRat (fieldD j "vs" (Json.arr []))
+    let ks ← getList getInt (fieldD j "ks" (Json.arr []))
+    let m ← mToJson (do let p ← evalM e; pure (observe p vs ks))
+    let s ← evalS e
+    pure <| Json.mkObj [("model", m), ("spec", optJson (fun s => observeS s vs ks) s)]
+  | "laws" =>
+    let n ← getNat (← field j "n")
+    let c ← getRat (← field j "c")
+    let v ← getRat (← field j "v")
+    let m ← mToJson (do
+      let p ← evalM (← liftD (field j "p"))
+      let q ← evalM (← liftD (field j "q"))
+      let r ← evalM (← liftD (field j "r"))
+      pure (Json.mkObj (laws p q r n c v)))
+    pure <| Json.mkObj [("model", m)]
+  | "eq" =>
+    let m ← mToJson (do
+      let p ← evalM (← liftD (field j "p"))
+      let q ← evalM (← liftD (field j "q"))
+      pure (Json.mkObj [("eq", boolJ (eq p q)), ("ne", boolJ (ne p q)),
+        ("hash_equal", boolJ (hashKey p == hashKey q))]))
+    let sp ← evalS (← field j "p")
+    let sq ← evalS (← field j "q")
+    let s := match sp, sq with
+      | some a, some b => Json.mkObj [("eq", boolJ (sEq a b))]
+      | _, _ => Json.null
+    pure <| Json.mkObj [("model", m), ("spec", s)]
+  | "lagrange" =>
+    let pts ← getList getPoint (← field j "pairs")
+    let ks ← getList getRat (fieldD j "ks" (Json.arr []))
+    let xs := pts.map (·.1)
+    let fv (fixed : Bool) := exceptJ rats ((xs ++ ks).mapM (fun k => lagrangeFunc pts k fixed))
+    let pj (fixed : Bool) := match lagrangePoly pts fixed with
+      | .ok p => Json.mkObj [("terms", polyJ (sortAsc p)), ("items", polyJ p),
+          ("at", rats ((xs ++ ks).map fun v => call p v .auto))]
+      | .error e => errJ e
+    let s := if distinctX pts && !pts.isEmpty then
+        Json.mkObj [("at_nodes", rats (sLagrangeAtNodes pts)), ("max_order", natToJson (pts.length - 1))]
+      else Json.null
+    pure <| Json.mkObj [("model", Json.mkObj [("func", fv false), ("poly", pj false)]),
+      ("model_fixed", Json.mkObj [("func", fv true), ("poly", pj true)]), ("spec", s)]
+  | _ => throw s!"C07: unknown entry {entry}"
 
 end ALV.Driver.C07
